@@ -412,10 +412,94 @@ pub async fn cmd_stall(args: Vec<String>) -> Result<()> {
     Ok(())
 }
 
-pub async fn cmd_tls(_args: Vec<String>) -> Result<()> {
-    Ok(())
-}
-pub async fn cmd_keepalive(_args: Vec<String>) -> Result<()> {
+// ------------------------------------------------------------------ C15 mutual TLS
+pub async fn cmd_tls(args: Vec<String>) -> Result<()> {
+    let out = arg(&args, "--out").ok_or(anyhow!("--out"))?;
+    let log = EvLog::to_file(&out)?;
+    let cases = read_cases(&arg(&args, "--cases").unwrap());
+    // two independent certificate sets from the bundled generator (fresh keys every run)
+    let set1 = PathBuf::from(format!("{out}.certs-a"));
+    let set2 = PathBuf::from(format!("{out}.certs-b"));
+    for d in [&set1, &set2] {
+        let _ = std::fs::remove_dir_all(d);
+        gen_certs(d)?;
+    }
+    // a self-signed client certificate
+    let ss = rcgen::generate_simple_self_signed(vec!["localhost".to_string()])?;
+    let ss_dir = PathBuf::from(format!("{out}.certs-ss"));
+    std::fs::create_dir_all(ss_dir.join("client"))?;
+    std::fs::write(ss_dir.join("client/localhost.der"), ss.serialize_der()?)?;
+    std::fs::write(ss_dir.join("client/localhost.key.der"), ss.serialize_private_key_der())?;
+    // the client's CA is always set 1's: "trusted" server = set 1, "other_ca" server = set 2
+    let servers = [("trusted", start_server(&set1, "127.0.0.1:0")?), ("other_ca", start_server(&set2, "127.0.0.1:0")?)];
+    let ca1 = read_der(set1.join("client/ca.der"))?;
+    let mut k = 0u64;
+    for c in &cases {
+        k += 1;
+        let cid = c["client"].as_str().unwrap();
+        let sid = c["server"].as_str().unwrap();
+        let via = c["via"].as_str().unwrap();
+        let addr = servers.iter().find(|(n, _)| *n == sid).unwrap().1.addr;
+        let ident_dir = match cid {
+            "trusted" => Some(set1.clone()),
+            "other_ca" => Some(set2.clone()),
+            "self_signed" => Some(ss_dir.clone()),
+            _ => None,
+        };
+        let topic = format!("/vtls/case{k}");
+        let (connected, registered, detail) = if via == "raw" {
+            let ident = match &ident_dir {
+                Some(d) => Some((read_der(d.join("client/localhost.der"))?, read_der(d.join("client/localhost.key.der"))?)),
+                None => None,
+            };
+            match tokio::time::timeout(Duration::from_secs(10), raw_connect(addr, &ca1, ident)).await {
+                Ok(Ok(conn)) => {
+                    // with TLS 1.3 the client may consider the handshake done before the server has
+                    // judged its certificate: the registration decides
+                    let r = async {
+                        let mut st = raw_stream(&conn).await?;
+                        st.send(reg_frame("sub", TopicName::try_from(topic.as_str())?)).await?;
+                        Ok::<_, anyhow::Error>(first_reply(&mut st).await)
+                    }
+                    .await;
+                    match r {
+                        Ok((kind, _)) => (true, kind == "ok", kind),
+                        Err(e) => (true, false, format!("refused: {e}")),
+                    }
+                }
+                Ok(Err(e)) => (false, false, format!("connect refused: {e}")),
+                Err(_) => (false, false, "connect timeout".to_string()),
+            }
+        } else {
+            // through the client library: CA of set 1, identity files of the chosen set
+            let d = ident_dir.clone().unwrap();
+            let r = async {
+                let client = selium::custom()
+                    .keep_alive(5_000u64)?
+                    .backoff_strategy(BackoffStrategy::constant().with_max_attempts(0))
+                    .endpoint(&addr.to_string())
+                    .with_certificate_authority(set1.join("client/ca.der"))?
+                    .with_cert_and_key(d.join("client/localhost.der"), d.join("client/localhost.key.der"))?
+                    .connect()
+                    .await?;
+                let sub = client.subscriber(&topic).with_decoder(StringCodec).open().await?;
+                drop(sub);
+                Ok::<_, anyhow::Error>(())
+            };
+            match tokio::time::timeout(Duration::from_secs(10), r).await {
+                Ok(Ok(())) => (true, true, "ok".to_string()),
+                Ok(Err(e)) => (false, false, format!("refused: {e}")),
+                Err(_) => (false, false, "timeout".to_string()),
+            }
+        };
+        log.emit("tls", json!({"case": k, "client": cid, "server": sid, "via": via, "connected": connected,
+            "registered": registered, "detail": detail.chars().take(100).collect::<String>()}));
+    }
+    log.flush();
+    for d in [&set1, &set2, &ss_dir] {
+        let _ = std::fs::remove_dir_all(d);
+    }
+    println!("{}", json!({"runs": cases.len(), "events": log.lines()}));
     Ok(())
 }
 
